@@ -267,7 +267,8 @@ def r17_7(ctx):
         def inner(self, o):
             return self._x * o._x + self._y * o._y
 
-        norm2 = property(lambda self: self.inner(self))
+        def norm2(self):
+            return self.inner(self)
 
         def __getitem__(self, i):
             return (self._x, self._y)[i]
